@@ -350,6 +350,12 @@ int sim_fchmod(int fd, mode_t m)
     tr_printf("fchmod fd%d %o", fd, (unsigned)m);
     return 0;
 }
+/* near relatives of calls that are already simulated: the same thing under another name must not fall through to the real system */
+int sim_mkostemp(char *tmpl, int flags) { (void)flags; return sim_mkstemp(tmpl); }
+int sim_lstat(const char *path, struct stat *st) { return sim_stat(path, st); }
+long sim_random(void) { return (long)sim_rand(); }
+void sim_srandom(unsigned s) { (void)s; }
+
 const char *simfs_last_temp_name(void) { return last_temp; }
 int simfs_is_temp(const char *path) { int i = find_node(path); return i >= 0 && nodes[i].is_temp; }
 void simfs_tempfile_check_at_return(int fd)
